@@ -17,6 +17,8 @@ pub enum WriteSchedule {
     Interrupting { chunks: Vec<usize>, every: usize },
     /// accept everything, fail on flush
     FlushFails,
+    /// reject exactly one write call (the one that would cross `k` accepted bytes), then accept everything
+    FailOnce { k: usize },
 }
 
 pub struct FaultyWriter {
@@ -25,11 +27,12 @@ pub struct FaultyWriter {
     pub calls: usize,
     pub flushes: usize,
     pub interrupted_next: bool,
+    pub failed_once: bool,
 }
 
 impl FaultyWriter {
     pub fn new(sched: WriteSchedule, capacity: usize) -> Self {
-        FaultyWriter { sched, accepted: Vec::with_capacity(capacity), calls: 0, flushes: 0, interrupted_next: false }
+        FaultyWriter { sched, accepted: Vec::with_capacity(capacity), calls: 0, flushes: 0, interrupted_next: false, failed_once: false }
     }
     fn push(&mut self, b: &[u8]) {
         // never reallocate inside a protected epoch: capacity was reserved up front
@@ -57,6 +60,24 @@ impl Write for FaultyWriter {
                 let n = room.min(buf.len());
                 self.push(&buf[..n]);
                 Ok(n)
+            }
+            WriteSchedule::FailOnce { k } => {
+                if !self.failed_once && self.accepted.len() + buf.len() > k {
+                    self.failed_once = true;
+                    let room = k.saturating_sub(self.accepted.len());
+                    if room == 0 {
+                        return Err(io::Error::new(io::ErrorKind::Other, "injected one-shot write failure"));
+                    }
+                    self.push(&buf[..room]);
+                    return Ok(room);
+                }
+                if self.failed_once && self.accepted.len() == k && !self.interrupted_next {
+                    // the call right after the partial one is the one that fails
+                    self.interrupted_next = true;
+                    return Err(io::Error::new(io::ErrorKind::Other, "injected one-shot write failure"));
+                }
+                self.push(buf);
+                Ok(buf.len())
             }
             WriteSchedule::ZeroAt { k } => {
                 let room = k.saturating_sub(self.accepted.len());
